@@ -14,8 +14,15 @@ func Run(c *Ctx, prop string) bool {
 // Properties maps a property id to the function that decides its clauses.
 var Properties = map[string]func(*Ctx){
 	"C09": C09,
+	"C07": C07,
+}
+
+func C07(c *Ctx) {
+	R7PathContain(c)
+	R7FileID(c)
 }
 
 func C09(c *Ctx) {
 	R5RangeMut(c, nil, 15)
+	R3LockPair(c, nil, 12)
 }
